@@ -46,9 +46,7 @@ def seeded():
         metas.append(m)
     metas.sort(key=lambda m: (m['name'].startswith('r'), m['name'][:2] if m['name'].startswith('r') else '', m['property'], m['name']))
     for m in metas:
-        hist = m.get('history') or []
-        first = hist[0] if hist else m.get('checks_run', {})
-        first_c = sorted(c for c, r in first.get('results', {}).items() if r['exit'] == 1)
+        first_c = m.get('first_caught_by', [])
         rows.append(f"| {m['name']} | {m['property']} | {esc(m.get('needs_to_manifest', ''))} | {' '.join(first_c) or '-'} | "
                     f"{' '.join(m.get('caught_by', [])) or '**missed**'} |")
     return '\n'.join(rows)
